@@ -145,6 +145,8 @@ is_6531_local (const char *start, const char *end)
                             return inverse(EEAV_LPART_UNQUOTED_FWS);
                     }
                 }
+                else /* end of data or invalid UTF-8: let the checks after the loop report it */
+                    goto done;
             } break;
 #endif
             } /* switch (ch) */
@@ -155,6 +157,9 @@ next:
         prev = utf8_decode_at_byte (&u);
     }
 
+#ifdef RFC6531_FOLLOW_RFC5322
+done:
+#endif
     /* invalid UTF-8 string */
     if (ch != UTF8_END)
         return inverse(EEAV_LPART_INVALID_UTF8);
